@@ -59,6 +59,8 @@ pub enum Bound {
     Unbounded,
     /// preemption bound of the tier (2 quick / 3 thorough)
     Tier,
+    /// a bound chosen per config (where the tier's bound does not finish in the tier's time)
+    Fixed(usize),
 }
 
 /// One loom model = one configuration of a sub-check.
